@@ -28,6 +28,30 @@ BOXES = [
                  ('vpcc_bytes(b.vpcc)', 'vpcc_len(b.vpcc)')]),
 ]
 
+HVCC_B1 = '(((b.general_profile_space & 3) << 6) | ((if b.general_tier_flag { 1u8 } else { 0u8 }) << 5) | (b.general_profile_idc & 0x1f)) as u8'
+HVCC_B2 = '(((b.constant_frame_rate & 3) << 6) | ((b.num_temporal_layers & 7) << 3) | ((if b.temporal_id_nested { 1u8 } else { 0u8 }) << 2) | (b.length_size_minus_one & 3)) as u8'
+BOXES.append(
+    dict(name='hvcch', ty='HvcCBox', req='hvcc_wire(b)', partial=True, doc='hvcC: box header and the 23 fixed bytes of HEVCDecoderConfigurationRecord (14496-15 8.3.3.1.2; reserved bits as the crate writes them), up to numOfArrays',
+         pieces=[('hdr_bytes(hvcc_len(b) as u64, 0x68766343)', 8), ('seq![b.configuration_version]', 1), ('seq![%s]' % HVCC_B1, 1),
+                 ('be_bytes(b.general_profile_compatibility_flags as nat, 4)', 4), ('be_bytes(b.general_constraint_indicator_flag as nat, 6)', 6), ('seq![b.general_level_idc]', 1),
+                 ('be_bytes((b.min_spatial_segmentation_idc & 0x0fff) as nat, 2)', 2), ('seq![(b.parallelism_type & 3) as u8]', 1), ('seq![(b.chroma_format_idc & 3) as u8]', 1),
+                 ('seq![(b.bit_depth_luma_minus8 & 7) as u8]', 1), ('seq![(b.bit_depth_chroma_minus8 & 7) as u8]', 1), ('be_bytes(b.avg_frame_rate as nat, 2)', 2),
+                 ('seq![%s]' % HVCC_B2, 1), ('seq![b.arrays@.len() as u8]', 1)]))
+BOXES.append(
+    dict(name='hev1', ty='Hev1Box', req='hev1_wire(b)', doc='HEVCSampleEntry(\'hev1\') extends VisualSampleEntry (same fixed fields as avc1) followed by the HEVCConfigurationBox',
+         extra_start=['assert((-1i16) as u16 == 0xffffu16) by(bit_vector);', 'lemma_hvcc_bytes_len(self.hvcc);'],
+         lemma_pre=['lemma_hvcc_bytes_len(b.hvcc);'],
+         pieces=[('hdr_bytes(hev1_len(b) as u64, 0x68657631)', 8), ('be_bytes(0, 4)', 4), ('be_bytes(0, 2)', 2), ('be_bytes(b.data_reference_index as nat, 2)', 2),
+                 ('be_bytes(0, 4)', 4), ('be_bytes(0, 8)', 8), ('be_bytes(0, 4)', 4), ('be_bytes(b.width as nat, 2)', 2), ('be_bytes(b.height as nat, 2)', 2),
+                 ('be_bytes(b.horizresolution.0.numer as nat, 4)', 4), ('be_bytes(b.vertresolution.0.numer as nat, 4)', 4), ('be_bytes(0, 4)', 4),
+                 ('be_bytes(b.frame_count as nat, 2)', 2), (ZERO32, 32, 'assert(Seq::new(32 as nat, |i: int| 0u8) =~= zeros(32));'), ('be_bytes(b.depth as nat, 2)', 2), ('be_bytes(0xffff, 2)', 2),
+                 ('hvcc_bytes(b.hvcc)', 'hvcc_len(b.hvcc)')]))
+BOXES.append(
+    dict(name='tx3gh', ty='Tx3gBox', req='true', partial=True, doc='TextSampleEntry(\'tx3g\') of 3GPP TS 26.245 5.16: reserved(6x8)=0 data_reference_index(16) displayFlags(32) horizontal-justification(8) vertical-justification(8) background-color-rgba(4x8), up to the BoxRecord',
+         pieces=[('hdr_bytes(46, 0x74783367)', 8), ('be_bytes(0, 4)', 4), ('be_bytes(0, 2)', 2), ('be_bytes(b.data_reference_index as nat, 2)', 2), ('be_bytes(b.display_flags as nat, 4)', 4),
+                 ('seq![b.horizontal_justification as u8]', 1), ('seq![b.vertical_justification as u8]', 1), ('seq![b.bg_color_rgba.red]', 1), ('seq![b.bg_color_rgba.green]', 1),
+                 ('seq![b.bg_color_rgba.blue]', 1), ('seq![b.bg_color_rgba.alpha]', 1)]))
+
 def opt(field, fn):
     return ('match b.%s { Some(x) => %s_bytes(x), None => Seq::<u8>::empty() }' % (field, fn), '(match b.%s { Some(x) => %s_len(x), None => 0 })' % (field, fn), '', 'opt:' + field)
 
@@ -75,7 +99,10 @@ def gen(BOXES, title_spec, title_vpc, zeros_def=True):
                        ''.join('    %s\n' % l for l in bx.get('lemma_pre', []))))
         cond = bx.get('cond')                                     # exactness condition (a predicate over *self), None = always
         cs = cond.replace('(b)', '(*self)') if cond else None
-        vpc.append('\nfn %s::write_box\n  ensures\n    [C04+C05+C14.%s.encode]  r is Ok%s ==> final(writer).data() == wr(old(writer).data(), old(writer).pos() as int, %s_bytes(*self))\n'
+        if bx.get('partial'):
+            vpc.append('\nfn %s::write_box\n' % ty)
+        else:
+            vpc.append('\nfn %s::write_box\n  ensures\n    [C04+C05+C14.%s.encode]  r is Ok%s ==> final(writer).data() == wr(old(writer).data(), old(writer).pos() as int, %s_bytes(*self))\n'
                    % (ty, n, (' && ' + cs) if cs else '', n))
         opts = ''.join('    assert(self.%s is None ==> %s_pre(*self, %d) =~= %s_pre(*self, %d));\n' % (p_[3][4:], n, k, n, k - 1)
                        for k, p_ in enumerate(ps) if len(p_) > 3 and str(p_[3]).startswith('opt:'))
